@@ -114,6 +114,7 @@ class MasterDriver:
         self.alloc_specs = {}       # (label, path) -> spec (accumulated, allocations are never removed)
         self.assignments = []       # (pattern, priority, key) in load order
         self.depth = 0
+        self.cutter = None
         self._install_hooks()
 
     # ------------------------------------------------------------------
@@ -532,7 +533,17 @@ class MasterDriver:
         t_lo = self.clock.peek()
         self.master.load_model()
         self.loaded = self.snapshot_model()
-        self.master.init_schedule()
+        if self.cutter is not None:
+            self.cutter.arm('init_schedule')
+        try:
+            self.master.init_schedule()
+        finally:
+            if self.cutter is not None:
+                cutter, self.cutter = self.cutter, None     # children of the final cut restart without cuts
+                try:
+                    cutter.disarm()
+                finally:
+                    self.cutter = cutter
         t_hi = self.clock.peek()
         # a new master has seen everything that is stored now
         z = self.z
@@ -610,6 +621,9 @@ class MasterDriver:
                 unsched=self.marks.get(name, set()), present=name in self.node_clients)
         # apps (only those the master has been told about: delivered /scheduled)
         told = set(self.delivered.get(z.SCHEDULED, []))
+        stored = set(self.srv.children(z.SCHEDULED))
+        for name in [n for n in Z['apps'] if n not in stored]:
+            del Z['apps'][name]         # unscheduled by the master itself (schedule-once)
         H.apps = {}
         for name, za in Z['apps'].items():
             if name not in told:
